@@ -84,6 +84,11 @@ func (e *fnEnc) call(in ssa.Instruction, cc *ssa.CallCommon) []Term {
 			res := mkRes("r." + shortKey(key))
 			callee := cc.StaticCallee()
 			inRepo := callee != nil && callee.Pkg != nil && (callee.Pkg == e.V.P.Bexpr || callee.Pkg == e.V.P.Grammar)
+			if inRepo && e.canInline(callee, key) {
+				if r, ok := e.inline(callee, key, args, pos); ok {
+					return r
+				}
+			}
 			if inRepo {
 				// no contract: results are unknown; the heap keys it may write
 				// are inferred from its code (and its callees') by type safety
